@@ -15,6 +15,12 @@ def run(ctx):
     else:
         ctx.pipe([h, "lu", "6000", "24"], "lu", label="lu-n24")
         ctx.pipe([h, "lu", "300", "40"], "lu", label="lu-n40")
+    if any(b[0].startswith("harness lu") for b in ctx.broken):
+        # the harness died inside the library (an assert of the headers fired, or a crash): search for the concrete system with the
+        # assertions compiled out (what the library's default Release build executes), so that the wrong answer reaches the
+        # comparison instead of aborting the process
+        h2 = ctx.build_harness("h_linalg", libs=(), extra=("-DNDEBUG",), out_name="h_linalg_ndebug")
+        ctx.pipe([h2, "lu", "700", "18"], "lu", label="lu-ndebug-search")
     # known finding F7: the absolute pivot test + std::exit
     ctx.pipe([h, "lu-exit"], "lu", label="lu-exit-probe")
     ctx.assumptions += ["std::unordered_map is modelled as a key-unique association list; results are proved independent of its order "
